@@ -55,7 +55,7 @@ RULE = ('three families.  features (~60 %): random lenses of 2-8 interfaces from
         'scale_system(s) and a 3-iteration OptimizerGeneric run (radius variable, f2 operand).  sample: the 24 bundled '
         'designs.  30 random (Hy, Px, Py) rays per wavelength + one hexapolar Optic.trace() fan per lens.  non-trivial = '
         '>= 3 interfaces and >= 2 feature classes beyond plain spheres in ideal media; distinct = distinct case hash')
-TIERS = {'quick': dict(shards=12, cases=16, budget_s=40), 'thorough': dict(shards=16, cases=600, budget_s=420)}
+TIERS = {'quick': dict(shards=12, cases=16, budget_s=200), 'thorough': dict(shards=16, cases=600, budget_s=420)}
 MIN_NONTRIVIAL = {'quick': 120, 'thorough': 2500}
 MIN_EVALS = {
     'to_dict-does-not-raise': {'quick': 150, 'thorough': 3000},
